@@ -321,7 +321,55 @@ def prog_registry():
     return out
 
 
-PROGRAMS = {'spec_queries': prog_spec_queries, 'compare': prog_compare, 'declarations': prog_declarations,
+def prog_chain():
+    """registry chains 3 and 4 deep of both flavours: every entry point of the LEAF is asked (so its caches are warm), then
+    one registry of the chain -- also the root-most one -- is mutated, and the leaf is asked again; also rebuild() and
+    re-basing in the middle of the chain"""
+    out = []
+    for R in (AdapterRegistry, VerifyingAdapterRegistry):
+        for depth in (3, 4):
+            for target in range(depth):
+                for mutation in ('register', 'unregister', 'subscribe', 'unsubscribe', 'rebuild+register', 'rebase-up'):
+                    chain = [R()]
+                    for _ in range(depth - 1):
+                        chain.append(R((chain[-1],)))
+                    leaf = chain[-1]
+                    spare = R()
+                    spare.register([I], K0, '', 'spare')
+                    for k, r in enumerate(chain):
+                        r.register([I], K0, 'n%d' % k, 'v%d' % k)
+                        r.subscribe([I], K0, 's%d' % k)
+                    chain[0].register([I], K0, '', 'root')
+                    ob = Cls()
+
+                    def ask():
+                        return [leaf.lookup((J,), K0, ''), leaf.lookup1(J, K0, 'n0'), sorted(leaf.lookupAll((J,), K0)),
+                                list(leaf.subscriptions((J,), K0)), sorted(leaf.names((J,), K0)),
+                                attempt(lambda: leaf.queryAdapter(ob, K0, 'zz', 'D')), leaf.lookup((I,), K0, 'new')]
+                    tag = '%s depth %d, %s in registry %d of the chain' % (R.__name__, depth, mutation, target)
+                    out.append((tag + ': before', attempt(ask)))
+                    t = chain[target]
+                    if mutation == 'register':
+                        t.register([I], K0, 'new', 'NEW')
+                        t.register([I], K0, '', 'REPLACED')
+                    elif mutation == 'unregister':
+                        t.unregister([I], K0, 'n%d' % target)
+                    elif mutation == 'subscribe':
+                        t.subscribe([I], K0, 'SNEW')
+                    elif mutation == 'unsubscribe':
+                        t.unsubscribe([I], K0, 's%d' % target)
+                    elif mutation == 'rebuild+register':
+                        t.unregister([I], K0, 'n%d' % target)
+                        t.rebuild()
+                        t.register([I], K0, 'new', 'NEW')
+                    elif mutation == 'rebase-up' and target > 0:
+                        t.__bases__ = (spare,)
+                    out.append((tag + ': after', attempt(ask)))
+                    out.append((tag + ': again', attempt(ask)))
+    return out
+
+
+PROGRAMS = {'chain': prog_chain, 'spec_queries': prog_spec_queries, 'compare': prog_compare, 'declarations': prog_declarations,
             'adapt': prog_adapt, 'registry': prog_registry}
 
 
@@ -354,7 +402,7 @@ def replay(name, step=None):
 
 
 def run(ctx):
-    ctx.rule = ('five generated API programs (specification queries, comparison/hash, declaration queries and descriptors, '
+    ctx.rule = ('six generated API programs (registry chains 3-4 deep with a mutation at every level incl. the root-most registry, rebuild and re-basing, leaf caches warm; specification queries, comparison/hash, declaration queries and descriptors, '
                 'adaptation calls, registry lookups incl. cached answers and bare LookupBase subclasses) over a pool of ~33 odd '
                 'argument values (unhashable, raising __hash__/__eq__/__name__/__provides__/__providedBy__/__class__, None, foreign, '
                 'super, builtins); every step records the value shape or the exception type; the check compares the traces of the '
